@@ -3,6 +3,7 @@
 //! It is not a verifier; it exists so a VIOLATION / finding can carry a failing input replayed against the real code.
 mod bounded;
 mod bounded2;
+mod bounded3;
 use ommx::v1::{self, decision_variable::Kind, Constraint, DecisionVariable, Equality, Function, Instance, Linear};
 use std::collections::HashMap;
 
@@ -83,6 +84,13 @@ fn demo(which: &str) -> i32 {
                 1
             } else { println!("{which} ok"); 0 }
         }
+        // D5b (C17): FR = free variable
+        "D5b" => {
+            let mps = "NAME t\nROWS\n N COST\n L R1\nCOLUMNS\n    Y COST 1 R1 1\nRHS\n    RHS R1 4\nBOUNDS\n FR BND Y\nENDATA\n";
+            let m = ommx::mps::load_raw_reader(mps.as_bytes()).unwrap();
+            let b = m.decision_variables[0].bound.clone().unwrap();
+            if b.lower != f64::NEG_INFINITY || b.upper != f64::INFINITY { println!("D5b MANIFESTS: `FR BND Y` gives bound [{}, {}], expected (-inf, +inf)", b.lower, b.upper); 1 } else { println!("D5b ok"); 0 }
+        }
         // D5a/D5c/D5d (C17)
         "D5a" | "D5c" | "D5d" => {
             let mps = "NAME t\nROWS\n N COST\n L R1\nCOLUMNS\n    X COST 1 R1 1\n    Z COST 1 R1 1\nRHS\n    RHS COST -5 R1 4\nBOUNDS\n UP BND X 0\n BV BND Z\nENDATA\n";
@@ -143,6 +151,6 @@ fn main() {
             }
         }
     }
-    println!("usage: rx bounded <Cxx> | rx demo <D1|D2|D3|D7|D13|D13u|D5a|D5c|D5d|D6>");
+    println!("usage: rx bounded <Cxx> | rx demo <D1|D2|D3|D7|D13|D13u|D5a|D5b|D5c|D5d|D6>");
     std::process::exit(2);
 }
